@@ -336,6 +336,16 @@ func init() {
 		}
 		return r
 	})
+	V("IteByte", func(g *G, a []Value, pos token.Pos) Value {
+		c := a[0].(BoolV)
+		if c.S == nil {
+			if c.C {
+				return a[1]
+			}
+			return a[2]
+		}
+		return g.vm.fromTermT(g.vm.tb.Ite(c.S, g.vm.intTerm(a[1].(IntV), 8), g.vm.intTerm(a[2].(IntV), 8)), 8, false)
+	})
 	V("InVM", func(g *G, a []Value, pos token.Pos) Value { return mkBool(true) })
 	V("Blocked", nil)
 	delete(I, verifPkg+".Blocked")
@@ -711,6 +721,8 @@ func init() {
 	I["strings.IndexByte"] = func(g *G, a []Value, pos token.Pos) Value {
 		return g.indexByte(strBytes(a[0]), a[1].(IntV))
 	}
+	I["internal/stringslite.Clone"] = func(g *G, a []Value, pos token.Pos) Value { return a[0] }
+	I["strings.Clone"] = func(g *G, a []Value, pos token.Pos) Value { return a[0] }
 	I["strings.ToLower"] = func(g *G, a []Value, pos token.Pos) Value { return strings.ToLower(argStr(a[0])) }
 	I["strings.ToUpper"] = func(g *G, a []Value, pos token.Pos) Value { return strings.ToUpper(argStr(a[0])) }
 	I["strings.TrimSpace"] = func(g *G, a []Value, pos token.Pos) Value { return strings.TrimSpace(argStr(a[0])) }
@@ -751,6 +763,8 @@ func init() {
 		return g.binaryWrite(a[0].(Iface), a[1].(Iface), a[2].(Iface), pos)
 	}
 
+	I["strconv.Atoi"] = nil
+	delete(I, "strconv.Atoi")
 	intrinsics = I
 	registerEnvIntrinsics(I)
 }
